@@ -282,7 +282,7 @@ def applyOp (r : Reg) : RegOp → Reg
   | .removeEvFn ev pid => removeEvFn r ev pid
 
 theorem regGet_removeFn (r : Reg) (pid ev : Nat) :
-    regGet (removeFn r pid) ev = (regGet r ev).filter (fun x => x.pid != pid) := by
+    regGet (removeFn r pid) ev = (regGet r ev).filter (fun x => x.fn != pid) := by
   induction r with
   | nil => simp [removeFn, regGet]
   | cons p r ih =>
@@ -328,32 +328,48 @@ theorem applyOp_sorted (r : Reg) (op : RegOp) (h : RegSorted r) : RegSorted (app
 
 /-! ## the concrete bus: what handlers, callbacks and top-level code can and cannot touch -/
 
-theorem runAct_frame (c : Core) (a : Act) : (runAct c a).1.cbq = c.cbq ∧ (runAct c a).1.log = c.log := by
+theorem runAct_frame (c : Core) (a : Act) :
+    (runAct c a).1.cbq = c.cbq ∧ (runAct c a).1.log = c.log ∧ (runAct c a).1.facts = c.facts := by
   cases a <;> simp [runAct] <;> split <;> simp
 
-theorem runActs_frame (c : Core) (acts : List Act) : (runActs c acts).1.cbq = c.cbq ∧ (runActs c acts).1.log = c.log := by
+theorem runActs_frame (c : Core) (acts : List Act) :
+    (runActs c acts).1.cbq = c.cbq ∧ (runActs c acts).1.log = c.log ∧ (runActs c acts).1.facts = c.facts := by
   induction acts generalizing c with
   | nil => simp [runActs]
   | cons a r ih =>
     simp only [runActs]
     have h1 := runAct_frame c a
-    have h2 := ih (runAct c a).1
-    exact ⟨h2.1.trans h1.1, h2.2.trans h1.2⟩
+    split
+    · exact h1
+    · have h2 := ih (runAct c a).1
+      exact ⟨h2.1.trans h1.1, h2.2.1.trans h1.2.1, h2.2.2.trans h1.2.2⟩
 
-theorem runActs_reg_sorted (c : Core) (acts : List Act) (h : RegSorted c.reg) : RegSorted (runActs c acts).1.reg := by
+theorem runAct_reg_sorted (c : Core) (a : Act) (hf : c.facts = Facts.canon) (h : RegSorted c.reg) :
+    RegSorted (runAct c a).1.reg := by
+  cases a with
+  | post ev ty cb kw => simp only [runAct]; split <;> exact h
+  | add ev hd => simp only [runAct, hf, addHandlerF_canon]; exact applyOp_sorted c.reg (.add ev hd) h
+  | removeKey ev k => exact applyOp_sorted c.reg (.removeKey ev k) h
+  | removeAll ev => exact applyOp_sorted c.reg (.removeAll ev) h
+  | replace ev hd => simp only [runAct, hf, replaceHandlerF_canon]; exact applyOp_sorted c.reg (.replace ev hd) h
+  | removeFn pid => exact applyOp_sorted c.reg (.removeFn pid) h
+  | removeEvFn ev pid => exact applyOp_sorted c.reg (.removeEvFn ev pid) h
+  | replaceRaw ev hd => simp only [runAct, hf, addHandlerF_canon]; exact applyOp_sorted c.reg (.add ev hd) h
+  | raise => exact h
+  | resolve wid => simp only [runAct]; split <;> exact h
+  | monitor on => exact h
+  | reenter => exact h
+
+theorem runActs_reg_sorted (c : Core) (acts : List Act) (hf : c.facts = Facts.canon) (h : RegSorted c.reg) :
+    RegSorted (runActs c acts).1.reg := by
   induction acts generalizing c with
   | nil => simpa [runActs] using h
   | cons a r ih =>
     simp only [runActs]
-    apply ih
-    cases a with
-    | post ev ty cb kw => simp only [runAct]; split <;> exact h
-    | add ev hd => exact applyOp_sorted c.reg (.add ev hd) h
-    | removeKey ev k => exact applyOp_sorted c.reg (.removeKey ev k) h
-    | removeAll ev => exact applyOp_sorted c.reg (.removeAll ev) h
-    | replace ev hd => exact applyOp_sorted c.reg (.replace ev hd) h
-    | removeFn pid => exact applyOp_sorted c.reg (.removeFn pid) h
-    | removeEvFn ev pid => exact applyOp_sorted c.reg (.removeEvFn ev pid) h
+    have h1 := runAct_reg_sorted c a hf h
+    split
+    · exact h1
+    · exact ih _ ((runAct_frame c a).2.2.trans hf) h1
 
 /-- serials of the callbacks that have run -/
 def cbSns (log : List Obs) : List Nat :=
@@ -373,23 +389,11 @@ theorem runHandlers_frame (progs : Nat → Prog) (ev sn : Nat) (ty : Ty) (hs : L
     · exact ih c kw res
     · have hf := runActs_frame { c with log := c.log ++ [Obs.call h.key ev sn (kwUpdate kw h.kw)] } (progs h.pid).acts
       split
-      · simp only [hf.1, hf.2, cbSns_append_call]; trivial
+      · simp only [hf.1, hf.2.1, cbSns_append_call]; trivial
       · simp only
         have h2 := ih (runActs { c with log := c.log ++ [Obs.call h.key ev sn (kwUpdate kw h.kw)] } (progs h.pid).acts).1
         refine ⟨(h2 _ _).1.trans hf.1, (h2 _ _).2.trans ?_⟩
-        rw [hf.2, cbSns_append_call]
-
-/-- dispatching an event registers its callback exactly once (under the event's own serial) and runs none -/
-theorem processEvent_cbq (progs : Nat → Prog) (c : Core) (e : Posted) :
-    cbSns (processEvent progs c e).1.log = cbSns c.log ∧
-    match e.cb with
-    | none => (processEvent progs c e).1.cbq = c.cbq
-    | some cb => ∃ kw, (processEvent progs c e).1.cbq = c.cbq ++ [(cb, e.sn, kw)] := by
-  have hf := runHandlers_frame progs e.ev e.sn e.ty (regGet c.reg e.ev) c e.kw .none
-  unfold processEvent
-  cases hcb : e.cb with
-  | none => simp only; exact ⟨hf.2, hf.1⟩
-  | some cb => simp only; exact ⟨hf.2, _, by rw [hf.1]⟩
+        rw [hf.2.1, cbSns_append_call]
 
 theorem popLast_spec {α : Type} (l r : List α) (x : α) (h : popLast l = some (r, x)) : l = r ++ [x] := by
   induction l generalizing r with
@@ -407,18 +411,31 @@ theorem popLast_spec {α : Type} (l r : List α) (x : α) (h : popLast l = some 
         obtain ⟨rfl, rfl⟩ := h
         rw [ih l' hp]; rfl
 
+def swapOpt {α : Type} : Option (List α × α) → Option (α × List α)
+  | some (r, x) => some (x, r)
+  | none => none
+
+theorem popAt_right {α : Type} (l : List α) : popAt .right l = swapOpt (popLast l) := by
+  cases l with
+  | nil => rfl
+  | cons a t => simp only [popAt]; cases popLast (a :: t) <;> rfl
+
 /-- a callback step removes exactly the entry it runs — the *last* one — and logs it once -/
-theorem cbRun_pops (progs : Nat → Prog) (c c' : Core) (posted : List Posted) (h : cbRun progs c = some (c', posted)) :
+theorem cbRun_pops (progs : Nat → Prog) (c c' : Core) (posted : List Posted) (hfc : c.facts = Facts.canon)
+    (h : cbRun progs c = some (c', posted)) :
     ∃ pid sn kw, c.cbq = c'.cbq ++ [(pid, sn, kw)] ∧ c'.log = c.log ++ [Obs.cb pid sn kw] := by
   unfold cbRun at h
+  have hpa : popAt c.facts.cbPop c.cbq = swapOpt (popLast c.cbq) := by
+    rw [hfc]; exact popAt_right _
+  rw [hpa] at h
   cases hp : popLast c.cbq with
-  | none => simp [hp] at h
+  | none => simp [hp, swapOpt] at h
   | some q =>
     obtain ⟨rest, pid, sn, kw⟩ := q
-    simp only [hp, Option.some.injEq] at h
-    have hf := runActs_frame { c with cbq := rest, log := c.log ++ [Obs.cb pid sn kw] } (progs pid).acts
+    simp only [hp, swapOpt, Option.some.injEq] at h
+    have hf := runActs_frame { c with cbq := rest, log := c.log ++ [Obs.cb pid sn kw], qempty := true } (progs pid).acts
     rw [h] at hf
-    refine ⟨pid, sn, kw, ?_, hf.2⟩
+    refine ⟨pid, sn, kw, ?_, hf.2.1⟩
     rw [hf.1]
     exact popLast_spec _ _ _ hp
 
@@ -442,7 +459,7 @@ theorem runHandlers_plain_log (progs : Nat → Prog) (ev sn : Nat) (hs : List Ha
       have h2 := ih (runActs { c with log := c.log ++ [Obs.call h.key ev sn (kwUpdate kw h.kw)] } (progs h.pid).acts).1
         (progs h.pid).ret
       refine ⟨?_, h2.2⟩
-      rw [h2.1, hf.2]
+      rw [h2.1, hf.2.1]
       simp [expectedCalls, hc]
     · have hc' : condHolds h.cond (kwUpdate kw h.kw) = false := by simpa using hc
       simp only [hc', Bool.not_false, if_true]
@@ -527,7 +544,7 @@ theorem runHandlers_relay (progs : Nat → Prog) (ev sn : Nat) (hs : List Handle
       have hf := runActs_frame { c with log := c.log ++ [Obs.call h.key ev sn (kwUpdate kw h.kw)] } (progs h.pid).acts
       rw [if_neg (by simp)]
       cases hr : (progs h.pid).ret <;> simp only [] <;>
-        (refine ⟨?_, (ih _ _ _).2⟩; rw [(ih _ _ _).1, hf.2]; simp)
+        (refine ⟨?_, (ih _ _ _).2⟩; rw [(ih _ _ _).1, hf.2.1]; simp)
     · have hc' : condHolds h.cond (kwUpdate kw h.kw) = false := by simpa using hc
       simp only [hc', Bool.not_false, if_true]
       exact ih c kw res
@@ -560,14 +577,206 @@ theorem runHandlers_boolean (progs : Nat → Prog) (ev sn : Nat) (hs : List Hand
       have hf := runActs_frame { c with log := c.log ++ [Obs.call h.key ev sn (kwUpdate kw h.kw)] } (progs h.pid).acts
       by_cases hr : (progs h.pid).ret = .bool false
       · rw [if_pos ⟨trivial, hr⟩]
-        simp [hr, hf.2]
+        simp [hr, hf.2.1]
       · rw [if_neg (fun hh => hr hh.2)]
         simp only [hr, if_false]
         refine ⟨?_, (ih _ _).2⟩
-        rw [(ih _ _).1, hf.2]; simp
+        rw [(ih _ _).1, hf.2.1]; simp
     · have hc' : condHolds h.cond (kwUpdate kw h.kw) = false := by simpa using hc
       simp only [hc', Bool.not_false, if_true]
       exact ih c res
+
+
+
+/-! ## the loop as the code runs it: blocking, `_min_priority` results, exceptions -/
+
+/-- reference: the handler calls of one dispatch (any event type) when nobody raises — a function of the snapshot, the
+posted kwargs and the handlers' return values only.  A handler is left out when its blocking facility is blocked by the
+`_min_priority` an earlier handler of this dispatch returned (or that was posted), or when its condition is false. -/
+def dispCalls (progs : Nat → Prog) (ev sn : Nat) (ty : Ty) : List Handler → Kw → List Obs
+  | [], _ => []
+  | h :: hs, kw =>
+    if blocked kw h || !condHolds h.cond (kwUpdate kw h.kw) then dispCalls progs ev sn ty hs kw
+    else Obs.call h.key ev sn (kwUpdate kw h.kw) ::
+      (if ty = .boolean ∧ (progs h.pid).ret = .bool false then []
+       else dispCalls progs ev sn ty hs (foldRet ty (progs h.pid).ret kw))
+
+theorem runHandlersX_frame (progs : Nat → Prog) (ev sn : Nat) (ty : Ty) (hs : List Handler) (c : Core) (kw : Kw)
+    (res : Ret) : (runHandlersX progs ev sn ty hs c kw res).1.cbq = c.cbq ∧
+      cbSns (runHandlersX progs ev sn ty hs c kw res).1.log = cbSns c.log ∧
+      (runHandlersX progs ev sn ty hs c kw res).1.facts = c.facts := by
+  induction hs generalizing c kw res with
+  | nil => simp [runHandlersX]
+  | cons h hs ih =>
+    simp only [runHandlersX]
+    split
+    · exact ih c kw res
+    · have hf := runActs_frame { c with log := c.log ++ [Obs.call h.key ev sn (kwUpdate kw h.kw)] } (progs h.pid).acts
+      split
+      · simp only [hf.1, hf.2.1, hf.2.2, cbSns_append_call]; trivial
+      · split
+        · simp only [hf.1, hf.2.1, hf.2.2, cbSns_append_call]; trivial
+        · simp only
+          have h2 := ih (runActs { c with log := c.log ++ [Obs.call h.key ev sn (kwUpdate kw h.kw)] } (progs h.pid).acts).1
+          refine ⟨(h2 _ _).1.trans hf.1, (h2 _ _).2.1.trans ?_, (h2 _ _).2.2.trans hf.2.2⟩
+          rw [hf.2.1, cbSns_append_call]
+
+/-- The calls of one dispatch are always a prefix of the reference list — each handler at most once, in snapshot
+order, nobody out of turn, even when a handler raises — and the whole list when nobody raised. -/
+theorem runHandlersX_log (progs : Nat → Prog) (ev sn : Nat) (ty : Ty) (hs : List Handler) (c : Core) (kw : Kw) (res : Ret) :
+    ∃ n, (runHandlersX progs ev sn ty hs c kw res).1.log = c.log ++ (dispCalls progs ev sn ty hs kw).take n ∧
+      ((runHandlersX progs ev sn ty hs c kw res).1.raised = false → (dispCalls progs ev sn ty hs kw).length ≤ n) := by
+  induction hs generalizing c kw res with
+  | nil => exact ⟨0, by simp [runHandlersX, dispCalls], by simp [dispCalls]⟩
+  | cons h hs ih =>
+    simp only [runHandlersX, dispCalls]
+    by_cases hsk : (blocked kw h || !condHolds h.cond (kwUpdate kw h.kw)) = true
+    · simp only [hsk, if_true]
+      exact ih c kw res
+    · have hsk' : (blocked kw h || !condHolds h.cond (kwUpdate kw h.kw)) = false := by simpa using hsk
+      simp only [hsk', Bool.false_eq_true, if_false]
+      have hf := runActs_frame { c with log := c.log ++ [Obs.call h.key ev sn (kwUpdate kw h.kw)] } (progs h.pid).acts
+      by_cases hr : (runActs { c with log := c.log ++ [Obs.call h.key ev sn (kwUpdate kw h.kw)] } (progs h.pid).acts).1.raised = true
+      · simp only [hr, if_true]
+        refine ⟨1, ?_, ?_⟩
+        · rw [hf.2.1]; simp
+        · intro hx; first | cases hx | (rw [hr] at hx; cases hx)
+      · have hr' : (runActs { c with log := c.log ++ [Obs.call h.key ev sn (kwUpdate kw h.kw)] } (progs h.pid).acts).1.raised = false := by
+          simpa using hr
+        simp only [hr', Bool.false_eq_true, if_false]
+        by_cases hb : ty = .boolean ∧ (progs h.pid).ret = .bool false
+        · simp only [hb, and_self, if_true]
+          refine ⟨1, ?_, ?_⟩
+          · rw [hf.2.1]; simp
+          · intro _; simp
+        · simp only [hb, if_false]
+          obtain ⟨n, h1, h2⟩ := ih (runActs { c with log := c.log ++ [Obs.call h.key ev sn (kwUpdate kw h.kw)] } (progs h.pid).acts).1
+            (foldRet ty (progs h.pid).ret kw) (progs h.pid).ret
+          refine ⟨n + 1, ?_, ?_⟩
+          · rw [h1, hf.2.1]; simp
+          · intro hx; have := h2 hx; simp; omega
+
+/-- once an exception is propagating the flag stays up to the end of `_run_handlers` -/
+theorem processEvent_log (progs : Nat → Prog) (c : Core) (e : Posted) :
+    ∃ n, (processEvent progs c e).1.log = c.log ++ (dispCalls progs e.ev e.sn e.ty (regGet c.reg e.ev) e.kw).take n ∧
+      ((processEvent progs c e).1.raised = false →
+        (dispCalls progs e.ev e.sn e.ty (regGet c.reg e.ev) e.kw).length ≤ n) := by
+  obtain ⟨n, h1, h2⟩ := runHandlersX_log progs e.ev e.sn e.ty (regGet c.reg e.ev) { c with qempty := true } e.kw .none
+  refine ⟨n, ?_, ?_⟩
+  · unfold processEvent
+    simp only
+    split
+    · exact h1
+    · split <;> exact h1
+  · unfold processEvent
+    simp only
+    split
+    · intro hx; exact h2 hx
+    · split <;> (intro hx; exact h2 hx)
+
+/-- dispatching an event runs no callback; it queues its own callback exactly once (under the event's own serial) when
+nobody raised, and not at all when a handler raised -/
+theorem processEvent_cbq (progs : Nat → Prog) (c : Core) (e : Posted) (hfc : c.facts = Facts.canon) :
+    cbSns (processEvent progs c e).1.log = cbSns c.log ∧
+    (if (processEvent progs c e).1.raised then (processEvent progs c e).1.cbq = c.cbq else
+      match e.cb with
+      | none => (processEvent progs c e).1.cbq = c.cbq
+      | some cb => ∃ kw, (processEvent progs c e).1.cbq = c.cbq ++ [(cb, e.sn, kw)]) := by
+  have hf := runHandlersX_frame progs e.ev e.sn e.ty (regGet c.reg e.ev) { c with qempty := true } e.kw .none
+  unfold processEvent
+  simp only
+  by_cases hr : (runHandlersX progs e.ev e.sn e.ty (regGet c.reg e.ev) { c with qempty := true } e.kw .none).1.raised = true
+  · simp only [hr, if_true]
+    exact ⟨hf.2.1, hf.1⟩
+  · have hr' : (runHandlersX progs e.ev e.sn e.ty (regGet c.reg e.ev) { c with qempty := true } e.kw .none).1.raised = false := by
+      simpa using hr
+    simp only [hr', Bool.false_eq_true, if_false]
+    cases hcb : e.cb with
+    | none => simp only [hr', Bool.false_eq_true, if_false]; exact ⟨hf.2.1, hf.1⟩
+    | some cb =>
+      simp only [hr', Bool.false_eq_true, if_false]
+      refine ⟨hf.2.1, ?_⟩
+      have hfx := hf.2.2.trans hfc
+      rw [hfx, hf.1]
+      exact ⟨_, rfl⟩
+
+/-! ## the facts of the source -/
+
+theorem enq_right {α : Type} (q p : List α) : enq .right q p = q ++ p := by cases q <;> rfl
+
+/-- with the canonical deque ends the parameterised iteration IS the iteration the refinement theorems are about -/
+theorem Loop.stepF_canon {S Ev : Type} (proc : S → Ev → S × List Ev) (cbrun : S → Option (S × List Ev)) (st : Loop S Ev) :
+    Loop.stepF Facts.canon proc cbrun st = Loop.step proc cbrun st := by
+  obtain ⟨s, queue, cur, inner⟩ := st
+  cases cur with
+  | nil => simp [Loop.stepF, Loop.step, Facts.canon, popAt, enq_right]
+  | cons e rest =>
+    cases rest with
+    | nil => cases inner <;> simp [Loop.stepF, Loop.step, Facts.canon, popAt, pushAt, enq_right]
+    | cons r rs => simp [Loop.stepF, Loop.step, Facts.canon, popAt, pushAt, enq_right]
+
+/-! ## futures: `_wait_handler` resolves a future at most once -/
+
+def futs (m : List (Nat × SObs)) : List Nat :=
+  m.filterMap (fun p => match p.2 with | .fut w => some w | _ => none)
+
+/-- every future reported as resolved is in `resolved`, and none is reported twice -/
+def FutInv (c : Core) : Prop := (futs c.mlog).Nodup ∧ ∀ w ∈ futs c.mlog, w ∈ c.resolved
+
+theorem runAct_futInv (c : Core) (a : Act) (h : FutInv c) : FutInv (runAct c a).1 := by
+  cases a with
+  | post ev ty cb kw =>
+    simp only [runAct]
+    split
+    · exact h
+    · by_cases hm : c.mon = true
+      · simp only [hm, if_true, FutInv, futs, List.filterMap_append, List.filterMap_cons, List.filterMap_nil,
+          List.append_nil]
+        exact h
+      · have hm' : c.mon = false := by simpa using hm
+        simp only [hm', Bool.false_eq_true, if_false, FutInv]
+        exact h
+  | resolve wid =>
+    simp only [runAct]
+    split
+    · exact h
+    · rename_i hnot
+      have hnot' : wid ∉ c.resolved := by simpa using hnot
+      obtain ⟨h1, h2⟩ := h
+      refine ⟨?_, ?_⟩
+      · simp only [futs, List.filterMap_append, List.filterMap_cons, List.filterMap_nil]
+        rw [List.nodup_append]
+        refine ⟨h1, by simp, ?_⟩
+        intro a ha b hb
+        simp at hb
+        subst hb
+        intro hab; subst hab
+        exact hnot' (h2 _ ha)
+      · intro w hw
+        simp only [futs, List.filterMap_append, List.filterMap_cons, List.filterMap_nil, List.mem_append,
+          List.mem_singleton] at hw
+        rcases hw with hw | hw
+        · exact List.mem_cons_of_mem _ (h2 w hw)
+        · subst hw; exact List.mem_cons_self
+  | add ev hd => exact h
+  | removeKey ev k => exact h
+  | removeAll ev => exact h
+  | replace ev hd => exact h
+  | removeFn pid => exact h
+  | removeEvFn ev pid => exact h
+  | replaceRaw ev hd => exact h
+  | raise => exact h
+  | monitor on => exact h
+  | reenter => exact h
+
+theorem runActs_futInv (c : Core) (acts : List Act) (h : FutInv c) : FutInv (runActs c acts).1 := by
+  induction acts generalizing c with
+  | nil => simpa [runActs] using h
+  | cons a r ih =>
+    simp only [runActs]
+    split
+    · exact runAct_futInv c a h
+    · exact ih _ (runAct_futInv c a h)
 
 
 end MpfVerif.EventBus
